@@ -49,6 +49,7 @@ def check(F, R):
     slack(F, R, f)
     s_split(F, R)
     sign_rhs(F, R)
+    t_remove(F, R)
 
 
 def bound_rows(F, R, f):
@@ -264,3 +265,48 @@ def sign_rhs(F, R):
     neg = [n for n in walk(f["body"]) if n.get("k") == "Struct" and any(fl["name"] == "rhs" and sexp(fl["e"]).startswith("-") for fl in n["fields"])]
     ok = len(neg) == 1 and any(fl["name"] == "coefficients" and "-1.0" in sexp(fl["e"]) for fl in neg[0]["fields"])
     R.ob("T-FLIP", "EqualityConstraint::new:both-sides", ok, F.loc(f), "when the right-hand side is negated every coefficient must be negated too")
+
+
+# ---- T-REMOVE -----------------------------------------------------------------------------------------
+# remove_many drops the original columns of split free variables from the names, the objective and every row.  It never
+# looks at the elements, only at positions, so its behaviour on all vectors of a given length is decided by the index
+# set alone: the body is evaluated by the table interpreter on vectors of distinct symbols of every length up to 6 and
+# every ascending index subset (2^0 + ... + 2^6 = 127 cases) and must return exactly the elements at the other positions.
+
+def t_remove(F, R):
+    import itertools
+    from interp import Interp, ListV, Leaf, is_unknown
+    p = "utils::remove_many"
+    f = F.fn(p)
+    if not R.ob("T-REMOVE", "anchor", f is not None and "body" in f, "packages/rooc/src/utils.rs", "remove_many found"):
+        return
+    R.fn(p)
+    I = Interp(F)
+    bad = None
+    n = 0
+    for ln in range(0, 7):
+        for k in range(0, ln + 1):
+            for idx in itertools.combinations(range(ln), k):
+                n += 1
+                v = ListV([Leaf("e%d" % i) for i in range(ln)])
+                r = I.call_fn(p, [v, ListV(list(idx))])
+                if is_unknown(r):
+                    bad = "not evaluable: %r" % (r,)
+                    break
+                got = [x.name for x in v.items]
+                want = ["e%d" % i for i in range(ln) if i not in idx]
+                if got != want:
+                    bad = "remove_many(%s, %s) leaves %s, expected %s" % (["e%d" % i for i in range(ln)], list(idx), got, want)
+                    break
+            if bad:
+                break
+        if bad:
+            break
+    R.ob("T-REMOVE", "positions", bad is None, F.loc(f), "evaluated on %d (length, index set) cases: %s" % (n, bad or "exactly the listed positions are removed, order kept"))
+    # the callers pass the same index list for names, objective and rows
+    st = F.fn("transformers::standardizer::to_standard_form") or next((F.fns[q] for q in F.fns if q.startswith("transformers::standardizer::") and any(c.get("k") == "Call" and norm(c.get("resolved") or c.get("callee") or "").endswith("utils::remove_many") for c in walk(F.fns[q].get("body") or {}))), None)
+    if st is not None:
+        R.fn(st["path"])
+        calls = [c for c in walk(st["body"]) if c.get("k") == "Call" and norm(c.get("resolved") or c.get("callee") or "").endswith("utils::remove_many")]
+        idxs = {sexp(strip(c["args"][1])) for c in calls}
+        R.ob("T-REMOVE", "same-indices", len(calls) >= 2 and len(idxs) == 1, F.loc(st), "names and objective are cut with the same index list: %s" % sorted(idxs))
